@@ -426,6 +426,23 @@ CLAIMS["C06"]["text"] += (" Translator tie (harness/py2coq_series.py): Market._f
                           "value), the function under the C06 theorems on recorded history across the 100-step chunks.")
 
 
+def _runner_tie():
+    import translated
+    return translated.runner_tie()
+
+
+RUNNER_NOTE = (" Translator tie (harness/py2coq_runner.py; primitives in coq/theories/RunnerPy.v): the per-order block of SequentialRunner._handle_orders - both copies, for normal "
+               "and for high-frequency agents - is REGENERATED from /repo's source on every run as the source's sequence of effect statements with the source's branching, and "
+               "coq/translated/RunnerC09Proofs.v is re-checked against the generated text: before-hooks, acceptance, the owner's callback, after-hooks and, while matching is on, the "
+               "round, the update of the holdings for the whole round, then per fill the buyer's callback, the seller's callback and the after-execution hooks - with nothing "
+               "running after an exception - IS the model's handle_request, the function the run-level theorems of C05, C09, C11, C13 and C16 are about; with placement off the "
+               "block refuses the order before anything else happens. Each primitive (what one effect statement does) is the model's own piece and is modelled by hand.")
+for _p in ("C09", "C11"):
+    CLAIMS[_p]["ties"] = (_runner_tie,)
+    CLAIMS[_p]["technique"] += " + source-to-Gallina translator tie for the per-order block of the runner (regenerated and re-proved every run)"
+    CLAIMS[_p]["text"] += RUNNER_NOTE
+
+
 def _index_tie():
     import translated
     return translated.index_tie()
